@@ -1,0 +1,58 @@
+// Verification hooks. Compiled only with the `verif-hooks` cargo feature.
+//
+// Nothing in here changes behaviour unless a harness arms it:
+// fuel is unlimited by default and no schedule callback is installed.
+
+use std::cell::Cell;
+use std::sync::atomic::{AtomicUsize, Ordering};
+
+/// Panic payload raised by [fuel_tick] when the armed fuel runs out.
+pub struct FuelExhausted;
+
+thread_local! {
+    static FUEL: Cell<u64> = const { Cell::new(u64::MAX) };
+}
+
+/// Arm (or with `u64::MAX` disarm) the per-thread fuel counter.
+pub fn set_fuel(ticks: u64) {
+    FUEL.with(|f| f.set(ticks));
+}
+
+/// Remaining fuel of the current thread.
+pub fn fuel_left() -> u64 {
+    FUEL.with(|f| f.get())
+}
+
+/// Called once per scanner / lexer read. Panics with [FuelExhausted] when armed fuel reaches zero.
+#[inline]
+pub fn fuel_tick() {
+    FUEL.with(|f| {
+        let v = f.get();
+        if v == u64::MAX {
+            return;
+        }
+        if v == 0 {
+            f.set(u64::MAX);
+            std::panic::panic_any(FuelExhausted);
+        }
+        f.set(v - 1);
+    });
+}
+
+static SCHED_CB: AtomicUsize = AtomicUsize::new(0);
+
+/// Install (or remove) a process wide callback invoked at the namespace cache's critical points.
+pub fn set_sched_callback(cb: Option<fn(u32)>) {
+    SCHED_CB.store(cb.map_or(0, |f| f as usize), Ordering::SeqCst);
+}
+
+/// Schedule point: 1/2/3 = supertypes cache (after miss, before insert, after insert),
+/// 11/12/13 = the same for the inheritance cache.
+#[inline]
+pub fn sched_point(id: u32) {
+    let raw = SCHED_CB.load(Ordering::Relaxed);
+    if raw != 0 {
+        let f: fn(u32) = unsafe { std::mem::transmute::<usize, fn(u32)>(raw) };
+        f(id);
+    }
+}
